@@ -114,8 +114,8 @@ Section Server.
   | SOut (id : Z) (k : key) (o : pout)         (* emitted by connection id (stored under k) *)
   | SErrProcess (raddr : addr) (id : Z)        (* connection closed + cfg.Errors("cannot process packet") *)
   | SErrGetConn (raddr : addr)                 (* cfg.Errors("cannot get client connection"); datagram dropped *)
-  | SConn (id : Z)                             (* value returned by NewConn *)
-  | SErrNewConn
+  | SConn (raddr : addr) (id : Z)              (* value returned by NewConn *)
+  | SErrNewConn (raddr : addr)
   | SDiscExists.                               (* ErrKeyAlreadyExists *)
 
   Inductive sresult := SOk (s : sstate) (o : list sout) | SPanic.
@@ -202,8 +202,8 @@ Section Server.
     | ENewConn raddr laddr lst =>
         let la := match laddr with Some a => a | None => lst end in
         match get_conn s raddr la with
-        | (s1, o1, None) => SOk s1 (o1 ++ [SErrNewConn])
-        | (s1, o1, Some c) => SOk s1 (o1 ++ [SConn (c_id c)])
+        | (s1, o1, None) => SOk s1 (o1 ++ [SErrNewConn raddr])
+        | (s1, o1, Some c) => SOk s1 (o1 ++ [SConn raddr (c_id c)])
         end
     | EClose k =>
         SOk (set_conns s (update (conns s) k (fun c0 => {| c_id := c_id c0; c_key := c_key c0; c_closed := true; c_st := c_st c0 |}))) []
@@ -245,7 +245,9 @@ Section Server.
     | SOut _ k _ => Some (fst k)
     | SErrProcess r _ => Some r
     | SErrGetConn r => Some r
-    | _ => None
+    | SConn r _ => Some r
+    | SErrNewConn r => Some r
+    | SDiscExists => None
     end.
 End Server.
 
